@@ -3,6 +3,7 @@ package simcheck
 import (
 	"bytes"
 	"fmt"
+	"github.com/cosmos72/gomacro/gls"
 	"go/token"
 	"os"
 	"strings"
@@ -62,7 +63,7 @@ type c12Probe struct {
 }
 
 var c12Probes = []c12Probe{{"P1", false}, {"P2", false}, {"P3", false}, {"P4", false}, {"P5", false}, {"P6", true}, {"P7", false}, {"P8", false}, {"P9", false}}
-var c13Targets = []string{"L1", "L2", "L3", "L4", "L5", "L6", "L7", "L8"}
+var c13Targets = []string{"L1", "L2", "L3", "L4", "L5", "L6", "L7", "L8", "L9"}
 
 const (
 	entryEval = iota
@@ -206,7 +207,12 @@ func c12Init() {
 		for _, name := range append(probeNames(), c13Targets...) {
 			e, _ := newC12Env(true, true)
 			n := 0
-			hs.Stmt = func(env *fast.Env, pos token.Pos) { n++ }
+			mainG := gls.GoID()
+			hs.Stmt = func(env *fast.Env, pos token.Pos) {
+				if gls.GoID() == mainG { // statements of the evaluating goroutine only
+					n++
+				}
+			}
 			ctx := &hook.Ctx{Ch: sim.NewReplay(0, nil).Stream("none")}
 			hook.Cur = ctx
 			esc := e.call(entryEval, name+"()")
